@@ -180,6 +180,9 @@ func runWedge(id string, parts []string) string {
 		env.SendRawUDP(bad)
 	case l == "tcp" || l == "gnet":
 		badSt = env.SendRawTCP(l, bad, f["mode"] == "frame")
+	case f["mode"] == "tlsraw":
+		// raw octets (no TLS handshake, or a broken one) on the socket of a TLS-based stream listener (tls, https)
+		badSt = env.SendRawTCP(strings.Split(l, "-")[0], bad, false)
 	case f["mode"] == "httpraw":
 		// [bad] is a raw (possibly malformed) HTTP request written to the DoH listener's socket as it is
 		badSt = env.SendRawTCP(strings.Split(l, "-")[0], bad, false)
